@@ -376,6 +376,15 @@ func runCheck(cfg *Config) int {
 				continue
 			}
 			o, errs := LemmaObligation(P, cf, l.lm)
+			if o != nil && l.lm.KnownID != "" {
+				if known.active()[l.lm.KnownID] {
+					o.Canary = true
+					o.KnownID = l.lm.KnownID
+					o.Name += "[canary " + l.lm.KnownID + "]"
+					rep.Canaries = append(rep.Canaries, &FuncResult{Name: o.Name, Obls: []*Obligation{o}})
+				}
+				o = nil
+			}
 			if o != nil {
 				rep.Lemmas = append(rep.Lemmas, o)
 			}
